@@ -2,9 +2,10 @@ CONSTANTS MaxRows = 2
           MaxRowsY = 0
           MaxSteps = 1
           NKeys = 4
-          Stride = 8
+          Stride = 16
           Gen = FALSE
           Emit = "none"
           Variant = "reuse_guarded"
-SPECIFICATION Spec
+INIT InitSame
+NEXT Next
 INVARIANT MechRefinesLaw
